@@ -7,6 +7,7 @@ property monitors on the implementation's observations.
 import GcpVerif.Driver.Common
 import GcpVerif.Driver.ME
 import GcpVerif.Driver.Pool
+import GcpVerif.Driver.Checksum
 open GcpVerif.Driver
 
 structure DrvState where
@@ -24,6 +25,8 @@ def handleLine (st : DrvState) (ln : Nat) (line : String) : DrvState :=
   | "pool" :: toks =>
     let (sess, rep) := PoolDrv.handle st.pool { st.rep with lines := st.rep.lines + 1 } ln toks obs
     { st with pool := sess, rep := rep }
+  | "ck" :: toks =>
+    { st with rep := CkDrv.handle { st.rep with lines := st.rep.lines + 1 } ln toks obs }
   | _ => { st with rep := st.rep.msg s!"BAD line={ln} unknown model" }
 
 partial def loop (h : IO.FS.Stream) (st : DrvState) (ln : Nat) : IO DrvState := do
